@@ -13,7 +13,7 @@ pub struct ScriptController;
 
 impl Controller for ScriptController {
     fn is_matching(request: &Request, _connection: &ConnectionInfo) -> bool {
-        request.method == METHOD.get && request.request_uri == "/script.js"
+        (request.method == METHOD.get || request.method == METHOD.head || request.method == METHOD.options) && request.request_uri == "/script.js"
     }
 
     fn process(_request: &Request, mut response: Response, _connection: &ConnectionInfo) -> Response {
